@@ -30,6 +30,7 @@ def run(ctx):
     ctx.run("C05.CODE-READER", "R-ERRDISC", mem.code_reader)
     ctx.run("C05.DELETE-TOLERANT", "R-ERRDISC", mem.delete_tolerant)
     ctx.run("C05.INVALIDATE-ORDER", "R-ORDER", mem.invalidate_order)
+    ctx.run("C05.LABEL-AFTER-WIPE", "R-ORDER", mem.label_after_wipe)
     ctx.run("C14.REWRITE", "R-ORDER", mem.dump_always_writes)
     ctx.run("C05.META-DUAL", "R-DUAL", mem.meta_dual)
     ctx.run("C06.EXPIRES", "R-ARITH", mem.expires)
